@@ -38,6 +38,8 @@ type Fault struct {
 	FailWrite int  `json:"fail_write,omitempty"` // the k-th batch Write of the run fails (0 = none)
 	Persist   bool `json:"persist,omitempty"`    // ... and every later one too (disk full)
 	CancelAt  int  `json:"cancel_at,omitempty"`  // cancel the sync when it issues its k-th request (0 = never)
+	FailPut   int  `json:"fail_put,omitempty"`   // the k-th Put into a write batch is refused (0 = never): that flush fails, the batch is dropped
+	Probe     int  `json:"probe,omitempty"`      // before the run, look up this many source hashes through the long-lived state database
 }
 
 // LoopCase is a source, one fault plan per target and a response schedule.
@@ -81,6 +83,11 @@ func genLoopCase(t *rapid.T) LoopCase {
 		}
 		if f.FailWrite > 0 {
 			f.Persist = rapid.Bool().Draw(t, "persist")
+		} else if f.CancelAt == 0 && rapid.Bool().Draw(t, "putfault") {
+			f.FailPut = rapid.SampledFrom([]int{2, 1, 5, 40, 150}).Draw(t, "failput")
+		}
+		if rapid.Bool().Draw(t, "probe") {
+			f.Probe = rapid.SampledFrom([]int{3, 1, 1000}).Draw(t, "nprobe")
 		}
 		c.Faults = append(c.Faults, f)
 	}
@@ -98,13 +105,30 @@ type faultDB struct {
 	writes  int // batch writes attempted
 	failed  int // batch writes that failed
 	wrote   int // batch writes that succeeded with content
+
+	putFailAt int // the k-th Put INTO a batch fails (the batch refuses the entry; 0 = never); one-shot
+	puts      int // Puts into batches since the fault was armed
+	putFailed int
 }
+
+// armPut makes the k-th Put into a batch from now on fail once.
+func (f *faultDB) armPut(k int) { f.putFailAt, f.puts = k, 0 }
 
 func (f *faultDB) NewBatch() youdb.Batch { return &faultBatch{Batch: f.MemDatabase.NewBatch(), db: f} }
 
 type faultBatch struct {
 	youdb.Batch
 	db *faultDB
+}
+
+func (b *faultBatch) Put(k, v []byte) error {
+	b.db.puts++
+	if b.db.putFailAt > 0 && b.db.puts == b.db.putFailAt {
+		b.db.putFailAt = 0
+		b.db.putFailed++
+		return errDisk
+	}
+	return b.Batch.Put(k, v)
 }
 
 func (b *faultBatch) Write() error {
@@ -171,6 +195,10 @@ const loopTimeout = 180 * time.Second // safety net only; a healthy step takes m
 // runLoop drives one real trieSync.run() to its end and returns what Wait() reports.
 func (d *driver) runLoop(f Fault, stepBase int) (res error, fdb *faultDB, cancelled bool, v *violation) {
 	fdb = &faultDB{MemDatabase: d.dst, failAt: f.FailWrite, persist: f.Persist}
+	fdb.armPut(f.FailPut)
+	if pv := d.probe(f.Probe, stepBase); pv != nil {
+		return nil, fdb, false, pv
+	}
 	var sched *trie.Sync
 	if d.t.kind == kindState {
 		sched = state.NewStateSync(d.t.root, fdb)
@@ -253,6 +281,7 @@ func runLoopCase(c LoopCase) kit.Result {
 		}
 		return kit.Fail(v.class, "%s", v.msg)
 	}
+	d.init()
 	nontrivial := false
 	for ti, t := range s.targets {
 		d.t = t
@@ -266,7 +295,16 @@ func runLoopCase(c LoopCase) kit.Result {
 			if v != nil {
 				return fail(v)
 			}
-			when := fmt.Sprintf("%s, run %d (fail write %d persist %v cancel at %d; %d batch writes, %d failed)", t.name, attempt, f.FailWrite, f.Persist, f.CancelAt, fdb.writes, fdb.failed)
+			when := fmt.Sprintf("%s, run %d (fail write %d persist %v, fail put %d, cancel at %d; %d batch writes, %d failed, %d refused puts)", t.name, attempt, f.FailWrite, f.Persist, f.FailPut, f.CancelAt, fdb.writes, fdb.failed, fdb.putFailed)
+			if fdb.putFailed > 0 {
+				d.labels["batch-put-fault-hit"] = true
+				if fdb.wrote > 0 {
+					d.labels["batch-put-fault-then-retry-flush"] = true
+				}
+			}
+			if fdb.failed+fdb.putFailed > 0 && len(t.reach) >= 2 {
+				nontrivial = true
+			}
 			if fdb.failed > 0 {
 				d.labels["write-fault-hit"] = true
 				if fdb.wrote > 0 {
@@ -285,7 +323,7 @@ func runLoopCase(c LoopCase) kit.Result {
 			if res == nil {
 				// completion reported
 				if cv := d.complete(when); cv != nil {
-					if fdb.failed > 0 && (cv.class == "incomplete-reported-complete") {
+					if fdb.failed+fdb.putFailed > 0 && (cv.class == "incomplete-reported-complete") {
 						cv.class = "write-error-swallowed"
 						cv.msg = fmt.Sprintf("%s: the sync reported completion (Wait() == nil) although %d of its %d batch writes failed: %s", when, fdb.failed, fdb.writes, cv.msg)
 					}
@@ -300,7 +338,7 @@ func runLoopCase(c LoopCase) kit.Result {
 			if cv := d.rootCheck(when + ": reported " + res.Error()); cv != nil {
 				return fail(cv)
 			}
-			if fdb.failed == 0 && !cancelled {
+			if fdb.failed+fdb.putFailed == 0 && !cancelled {
 				return fail(vio("spurious-sync-error", "%s: no fault was injected and every request was answered with its data, the sync failed: %v", when, res))
 			}
 			if attempt == 1 {
@@ -324,5 +362,5 @@ var _ = kit.Register(kit.Prop[LoopCase]{
 	Name: "LoopWriteFaults",
 	Rule: "sources as in SyncSchedule (plus, for 1 in 8 trie cases, 400-800 extra 300-byte entries so that the sync crosses the 100 KiB intermediate-flush threshold); each target is synchronised by the REAL trieSync.run() (loop + deferred final flush) in its own goroutine with the harness in the place of runTrieSync (one peer; responses complete / partial / with duplicate, foreign, corrupted or unrequested blobs); the destination database fails the k-th batch Write (k in 1..4; once or persistently; for small tries k=1 is the final forced flush carrying the root) and/or the sync is cancelled at its k-th request; then a fault-free sync resumes on the same database. Oracle: Wait()==nil => all reachable nodes on disk and content reads back; error => database downward closed and a present root complete; no fault => nil. non-trivial = a batch write fault actually hit a sync of a trie with >= 2 nodes; distinct = FNV-64 of the case JSON",
 	Gen:  genLoopCase, Run: runLoopCase,
-	Quick: 600, Thorough: 12000, Chunk: 300, MinNonTrivialPct: 15,
+	Quick: 1500, Thorough: 12000, Chunk: 500, MinNonTrivialPct: 15,
 })
